@@ -16,7 +16,7 @@ from ..astutil import calls_in, call_name, where, kw, local_assignments, atoms_a
 from ..symtext import Expander, effect_calls, canon_text, canon_expr
 from ..cfg import build_cfg, enclosing_handlers
 from ..model import AnalysisError, FuncInfo, unparse, walk_no_nested, canonical_name
-from ..astutil import template_parts
+from ..astutil import template_parts, bound_args
 
 _PROG = [None]
 
@@ -110,6 +110,8 @@ def run(prog, rep):
                 for c in calls_in(root):
                     if call_name(c) == "run_conversion":
                         calls.append((node, c))
+        if len(calls) != 3 and _format_table_form(prog, rep, f, g, calls, want):
+            continue
         rep.check(len(calls) == 3, "FMT-1", "%s: three run_conversion calls" % f.short, "ok", "main calls run_conversion %d times" % len(calls), f.where)
         rc = prog.func(m + ".run_conversion")
         fmt_idx = rc.params.index("source_format")
@@ -196,14 +198,16 @@ def run(prog, rep):
             if not (isinstance(c.func, ast.Name) and c.func.id == "run_conversion"):
                 continue
             n_rc += 1
+            rcp = prog.func(m + ".run_conversion").params
+            ba = bound_args(c, rcp) or []
             for i in dirpos.get("run_conversion", []):
-                a = c.args[i] if i < len(c.args) else None
+                a = ba[i] if i < len(ba) else None
                 ok, why = _fresh_dir(x.expand(a), f) if a is not None else (False, "missing")
                 rep.check(ok, "PROV-9", "%s: run_conversion directory #%d is a fresh directory under the output root" % (f.short, i), why,
                           "run_conversion is called with output directory `%s`, which is not tempfile.mkdtemp(dir=<cwd | -o directory | fresh dir>): %s"
                           % (x.text(a)[:80] if a is not None else "?", why), where(f, c),
                           witness="outputs land in an existing directory (possibly the input directory)")
-        rep.floor("PROV-9", n_rc, 3, "run_conversion calls in %s" % f.short)
+        rep.floor("PROV-9", n_rc, 1, "run_conversion calls in %s" % f.short)
         rep.floor("PROV-9", len(dirpos.get("run_conversion", [])), 1, "output directory parameters of run_conversion in %s" % m)
 
     # ---------------------------------------------------------------- SINK-1
@@ -255,7 +259,7 @@ def run(prog, rep):
     rep.check(len(implicit) == 1 and ctext(implicit[0].ast.value, implicit[0]) == want, "FC-1", "implicit output directory differs from the input directory", "ok",
               "the implicit output directory is no longer <parent>/<input dir name>_<format>: %s" % [ctext(n.ast.value, n) for n in implicit], cd.where,
               witness="outputs written into the input directory")
-    effs = effect_calls(prog, cd, lambda c: isinstance(c.func, ast.Attribute) and c.func.attr == "_convert_file" and len(c.args) >= 2)
+    effs = effect_calls(prog, cd, lambda c: call_name(c).split(".")[-1] == "_convert_file" and len(c.args) >= 2)
     ok = len(effs) == 2
     shown = []
     for e in effs:
@@ -269,7 +273,8 @@ def run(prog, rep):
         ok = ok and a0.startswith("os.path.join(") and ind in n0 and outd not in n0 and outd in n1
     rep.check(ok, "FC-1", "convert_dir passes (input path, output path) pairs", "ok",
               "_convert_file is not called with (path in input dir, path in output dir): %s" % shown, cd.where)
-    inp, outp = cf.params[1], cf.params[2]
+    coff = 1 if cf.has_self else 0            # classmethod / method / module function
+    inp, outp = cf.params[coff], cf.params[coff + 1]
     fx = Expander(cf)
     for c in calls_in(cf.node):
         fn = _cn(c, cf)
@@ -281,6 +286,49 @@ def run(prog, rep):
         if fn in ("odml.load", "fileio.load", "VersionConverter", "tools.converters.version_converter.VersionConverter"):
             rep.check(fx.text(c.args[0]) == inp, "FC-1", "_convert_file: %s reads input_path" % fn, "ok", "%s is applied to %s" % (fn, fx.text(c.args[0])), where(cf, c))
     rep.assume("tempfile.mkdtemp creates a new, empty directory; os.path.join/splitext/basename are pure")
+
+
+def _format_table_form(prog, rep, f, g, calls, want):
+    """FMT-1 for a table driven main(): the module holds one literal table whose rows pair a source format with its glob patterns;
+    run_conversion is called in a loop whose source_format argument and file list are the two loop variables of one `for`.
+    Decides the pairing of patterns and formats from the rows; that the file list of a row is globbed with the patterns of that
+    row is read from a comprehension / loop over the same table in the function the list comes from."""
+    mod = f.module
+    rows = {}
+    for y in ast.walk(mod.tree):
+        if isinstance(y, (ast.Tuple, ast.List)):
+            fmts = [e0.value for e0 in y.elts if isinstance(e0, ast.Constant) and e0.value in want]
+            pats = [z.value for e0 in y.elts for z in ast.walk(e0) if isinstance(z, ast.Constant) and isinstance(z.value, str) and z.value.startswith("*.")]
+            if len(fmts) == 1 and pats and not any(isinstance(e0, (ast.Tuple, ast.List)) and any(
+                    isinstance(z, ast.Constant) and z.value in want for z in ast.walk(e0)) for e0 in y.elts):
+                rows.setdefault(fmts[0], set()).update(pats)
+    if set(rows) != set(want):
+        return False
+    rc = prog.func(mod.name[len("odml."):] + ".run_conversion")
+    fmt_idx = rc.params.index("source_format")
+    ok_calls = []
+    for node, c in calls:
+        fmt = kw(c, "source_format", fmt_idx)
+        lst = c.args[0] if c.args else None
+        loops = [n for n in g.nodes if n.kind == "for" and g.dominates(n, node) and isinstance(n.ast.target, (ast.Tuple, ast.List))]
+        same_loop = any(isinstance(fmt, ast.Name) and isinstance(lst, ast.Name) and
+                        set([fmt.id, lst.id]) <= set(e0.id for e0 in lp.ast.target.elts if isinstance(e0, ast.Name)) for lp in loops)
+        if same_loop:
+            ok_calls.append((node, c))
+    if len(ok_calls) != len(calls) or not calls:
+        return False
+    for fmt_v in sorted(want):
+        rep.check(rows[fmt_v] == want[fmt_v], "FMT-1", "%s: table row %s" % (f.short, fmt_v), str(sorted(rows[fmt_v])),
+                  "the table pairs the globs %s with source format %s" % (sorted(rows[fmt_v]), fmt_v), f.where,
+                  witness="a valid file of that kind which the other parser cannot read gets no output")
+    stray = set(z.value for z in ast.walk(mod.tree) if isinstance(z, ast.Constant) and isinstance(z.value, str) and z.value.startswith("*.")) \
+        - set(p0 for v in rows.values() for p0 in v)
+    rep.check(not stray, "FMT-1", "%s: every glob pattern belongs to a table row" % f.short, "ok", "glob patterns outside the table: %s" % sorted(stray), f.where)
+    for node, c in calls:
+        conds = [(unparse(t), pol) for t, pol, _ in g.dominating_conditions(node) if pol in ("true", "false") and "isdir" not in unparse(t)]
+        rep.check(not conds, "FMT-1", "%s: the table driven conversion is unconditional" % f.short, "ok",
+                  "run_conversion only runs under %s" % conds, where(f, c))
+    return True
 
 
 def _harmless(c, f, lp):
@@ -299,11 +347,38 @@ def _harmless(c, f, lp):
     return False
 
 
-def _is_glob_call(c, x):
-    """<path>.glob('pat') / .rglob('pat'), also through a local alias of the bound method (search = P.rglob if r else P.glob)"""
+_GLOB_HELPERS = {}
+
+
+def _glob_helpers(fnode, module=None):
+    """names of local closures of fnode (and private functions of the module) that glob with their first parameter:
+    def find(pattern): ... <path>.rglob(pattern) / <path>.glob(pattern) ..."""
+    key = id(fnode)
+    if key in _GLOB_HELPERS and _GLOB_HELPERS[key][0] is fnode:
+        return _GLOB_HELPERS[key][1]
+    out = set()
+    cands = [n for n in ast.walk(fnode) if isinstance(n, ast.FunctionDef) and n is not fnode]
+    if module is not None:
+        cands += [h.node for h in module.functions.values()]
+    for h in cands:
+        if not h.args.args:
+            continue
+        p0 = h.args.args[0].arg
+        if any(isinstance(c, ast.Call) and isinstance(c.func, ast.Attribute) and c.func.attr in ("glob", "rglob") and c.args
+               and isinstance(c.args[0], ast.Name) and c.args[0].id == p0 for c in ast.walk(h)):
+            out.add(h.name)
+    _GLOB_HELPERS[key] = (fnode, out)
+    return out
+
+
+def _is_glob_call(c, x, helpers=()):
+    """<path>.glob('pat') / .rglob('pat'), also through a local alias of the bound method (search = P.rglob if r else P.glob)
+    or through a helper that globs with its parameter (find('pat'))"""
     if not (isinstance(c, ast.Call) and c.args and isinstance(c.args[0], ast.Constant) and isinstance(c.args[0].value, str)):
         return False
     if isinstance(c.func, ast.Attribute) and c.func.attr in ("glob", "rglob"):
+        return True
+    if isinstance(c.func, ast.Name) and c.func.id in helpers:
         return True
     if isinstance(c.func, ast.Name) and x is not None:
         from ..astutil import value_cases
@@ -312,24 +387,25 @@ def _is_glob_call(c, x):
     return False
 
 
-def _direct_globs(fnode, name, x=None):
+def _direct_globs(fnode, name, x=None, module=None):
     out = set()
+    helpers = _glob_helpers(fnode, module)
     for n in walk_no_nested(fnode):
         if isinstance(n, ast.Assign) and isinstance(n.targets[0], ast.Name) and n.targets[0].id == name:
             for c in calls_in(n.value):
-                if _is_glob_call(c, x):
+                if _is_glob_call(c, x, helpers):
                     out.add(c.args[0].value)
         if isinstance(n, ast.Expr) and isinstance(n.value, ast.Call) and isinstance(n.value.func, ast.Attribute) and n.value.func.attr == "extend" \
                 and unparse(n.value.func.value) == name:
             for c in calls_in(n.value):
-                if _is_glob_call(c, x):
+                if _is_glob_call(c, x, helpers):
                     out.add(c.args[0].value)
     return out
 
 
 def _list_globs(f, name, depth=0):
     """glob patterns whose matches end up in list `name` of function f (through tuple results of module level helpers)."""
-    out = _direct_globs(f.node, name, Expander(f, only_locations=False))
+    out = _direct_globs(f.node, name, Expander(f, only_locations=False), f.module)
     if depth > 2:
         return out
     for n in walk_no_nested(f.node):
@@ -371,6 +447,25 @@ def _fresh_dir(e, f, depth=0):
     d = kw(e, "dir", None)
     if d is None:
         return False, "mkdtemp without dir= creates the directory in the system temp dir, not under the chosen root"
+    if isinstance(d, ast.Call) and depth < 2 and isinstance(d.func, ast.Name) and d.func.id.startswith("_") and d.func.id in f.module.functions:
+        # the root is chosen by a private helper: every value it returns is the working directory or the option handed in
+        h = f.module.functions[d.func.id]
+        hx = Expander(h)
+        rets = [n for n in walk_no_nested(h.node) if isinstance(n, ast.Return) and n.value is not None]
+        good = bool(rets)
+        shown = []
+        for r in rets:
+            v = hx.expand(r.value)
+            shown.append(unparse(v))
+            if isinstance(v, ast.Call) and _cn(v, h) == "os.getcwd" and not v.args:
+                continue
+            if isinstance(v, ast.Name) and v.id in h.params:
+                i = h.params.index(v.id)
+                a = d.args[i] if i < len(d.args) else None
+                if isinstance(a, ast.Subscript) and isinstance(a.slice, ast.Constant) and a.slice.value == "-o":
+                    continue
+            good = False
+        return good, "root %s(...) = %s" % (d.func.id, shown)
     if isinstance(d, ast.Call) and depth < 2:
         return _fresh_dir(d, f, depth + 1)
     if isinstance(d, ast.Name):
